@@ -107,6 +107,19 @@ def gen_cases(rng, tier):
         y0, y1 = rng.uniform(2, 5), rng.uniform(12, 17)
         pts = [(x0, y0), (x1, y0 + rng.uniform(0, 3)), (x1 - rng.uniform(0, 6), y1), (x0, y1 - rng.uniform(0, 2))]
         cases.append(("fill_px", [i % 2, 1, (i // 2) % 2, 8230, 20, 8160, 8229, 750, 350] + list(IDENT) + poly_ops(pts, grid=64.0)))
+    # a width that is an exact multiple of the tile size (8191) with more than one tile row: shapes straddling the horizontal seam
+    for i in range(2 if tier == "quick" else 8):
+        pts = [(rng.uniform(8, 20), 8184.0 + rng.uniform(0, 3)), (rng.uniform(35, 50), 8186.0), (rng.uniform(35, 50), 8199.0 + rng.uniform(0, 3)), (rng.uniform(8, 20), 8197.0)]
+        cases.append(("fill_px", [i % 2, 1, i % 2, 8191, 8211, 0, 60, 750, 350] + list(IDENT) + poly_ops(pts, grid=64.0)))
+    # cubic segments (cubic_to, not the quads of circles) crossing the TOP border and, on tiled targets, the top seam of a tile
+    for i in range(24 if tier == "quick" else 300):
+        w, h = rng.choice([(100, 80), (60, 60)])
+        x0, x3 = rng.uniform(5, 25), rng.uniform(w - 30, w - 5)
+        ytop = -rng.uniform(10, 60)
+        ops = [0, f2b(x0), f2b(h * 0.8), 3, f2b(x0 + rng.uniform(-10, 30)), f2b(ytop), f2b(x3 + rng.uniform(-30, 10)), f2b(ytop * rng.uniform(0.3, 1.0)), f2b(x3), f2b(h * rng.uniform(0.5, 0.9)), 4]
+        if i % 3 == 0:   # the cubic dips out through the top and comes back: two crossings
+            ops = [0, f2b(x0), f2b(h * 0.3), 3, f2b(x0 + 10), f2b(ytop), f2b(x3 - 10), f2b(ytop), f2b(x3), f2b(h * 0.35), 1, f2b(x3), f2b(h * 0.9), 1, f2b(x0), f2b(h * 0.9), 4]
+        cases.append(("fill_px", [i % 2, 1, (i // 2) % 2, w, h, 0, w, 1250, 500] + list(IDENT) + ops))
     # three tiles in a row / in a column (16400 px): shapes in the second tile, across the second seam (16382) and in the third
     for i in range(6 if tier == "quick" else 36):
         xa = [16300.0, 16370.5, 16386.25][i % 3] + rng.uniform(0, 3)
